@@ -1047,6 +1047,73 @@ func vfC16CloseFromCallback(res *vfResult, iter int) {
 	_ = p.S.Conn.Close()
 }
 
+// vfC16LateFinalFlight: the side that sends the last flight is slow, the other side retransmits, and in the end the
+// final flight arrives twice - once as the original, once as the answer to the retransmission. The connection is
+// established all the same: data arrives, the peer's Close gives EOF, and after Close nothing of it is left behind.
+func vfC16LateFinalFlight(t *testing.T, res *vfResult, idx int) {
+	variants := []string{"12-ecdsa", "12-cid", "12-psk-cbc", "13", "13-cid"}
+	cfg := vfC16Cfg(variants[idx%len(variants)])
+	res.Eval(1)
+	co, so := cfg.Options(nil, nil)
+	n := vfNewNet()
+	delay := []time.Duration{1500 * time.Millisecond, 1100 * time.Millisecond, 3500 * time.Millisecond}[(idx/len(variants))%3]
+	late := 0
+	n.SetOnSend(func(n *vfNet, w *vfWire) {
+		k := vfKind(w.Data)
+		// the server's last flight (DTLS 1.2: ChangeCipherSpec + Finished; DTLS 1.3: the protected flight) is slow once
+		if w.From == "s" && late < 2 && (strings.Contains(k, "ChangeCipherSpec") || strings.Contains(k, "protected-e2")) {
+			late++
+			n.DeliverAfter(delay, w.Dst, w.Data, vfAddrOf(w.From))
+
+			return
+		}
+		n.Deliver(w.Dst, w.Data, vfAddrOf(w.From))
+	})
+	p, err := vfNewPair(n, co, so)
+	if err != nil {
+		return
+	}
+	id := fmt.Sprintf("late-final-flight/%s/%v", variants[idx%len(variants)], delay)
+	replay := map[string]any{"late_final_flight": idx}
+	if ce, se := p.Handshake(2 * time.Minute); ce != nil || se != nil {
+		res.Count("late_final_flight_handshake_failed", 1)
+		p.Close()
+		synctest.Wait()
+
+		return
+	}
+	n.SetOnSend(nil)
+	res.NonTrivial(fmt.Sprintf("%s/%d", id, idx))
+	time.Sleep(5 * time.Second) // retransmissions and their answers drain
+	synctest.Wait()
+	for _, dir := range [][2]*vfSide{{p.S, p.C}, {p.C, p.S}} {
+		from, to := dir[0], dir[1]
+		pl := []byte("ping-from-" + from.Name)
+		_, _ = from.Conn.Write(pl)
+		buf := make([]byte, 256)
+		_ = to.Conn.SetReadDeadline(time.Now().Add(10 * time.Second))
+		nr, rerr := to.Conn.Read(buf)
+		if rerr != nil || !bytes.Equal(buf[:nr], pl) {
+			res.Violate("C16:established-connection-does-not-deliver:after-duplicated-final-flight:"+to.Name,
+				fmt.Sprintf("%s: after a handshake in which the final flight arrived twice, Read on %s returned (%q, %v) instead of the peer's payload", id, to.Name, buf[:nr], rerr), replay)
+		}
+	}
+	_ = p.S.Conn.Close()
+	buf := make([]byte, 256)
+	_ = p.C.Conn.SetReadDeadline(time.Now().Add(10 * time.Second))
+	if _, rerr := p.C.Conn.Read(buf); !errors.Is(rerr, io.EOF) {
+		res.Violate("C16:peer-close-not-eof:after-duplicated-final-flight", fmt.Sprintf("%s: the server closed; the client's Read returned %v instead of EOF", id, rerr), replay)
+	}
+	_ = p.C.Conn.Close()
+	p.Close()
+	time.Sleep(2 * time.Second)
+	synctest.Wait()
+	if leaks := vfBubbleLeaks(); len(leaks) > 0 {
+		res.Violate("C16:goroutine-left-behind:after-duplicated-final-flight", fmt.Sprintf("%s: %d library goroutines remain after both sides closed: %s", id, len(leaks), vfLeakSummary(leaks)), replay)
+	}
+	res.Count("late_final_flight_cases", 1)
+}
+
 // vfC16CloseRace: the peer closes; this side's read loop answers with close_notify, and that datagram is still
 // being written (socket slow for a moment) when the application calls Close here as well. One close_notify may
 // leave this endpoint. Real time, for the same reason as vfC16ParkedWrite.
@@ -1147,6 +1214,7 @@ func TestVF_C16(t *testing.T) {
 	}
 	cases := vfC16Cases()
 	vfBubbles(t, len(cases), func(t *testing.T, i int) { vfC16Run(t, res, cases[i]) })
+	vfBubbles(t, vfPick(15, 90), func(t *testing.T, i int) { vfC16LateFinalFlight(t, res, i) })
 	vfParallel(vfPick(10, 100), func(_, i int) { vfC16ParkedWrite(res, i) })
 	vfParallel(vfPick(20, 200), func(_, i int) { vfC16CloseRace(res, i) })
 	vfParallel(vfPick(10, 100), func(_, i int) { vfC16ParkedWriteDeadline(res, i) })
